@@ -224,7 +224,7 @@ def run(ctx):
                        'systems with condition number > 1e6 are tie_excluded')
     if not proofs_ok: proof_break_violation(ctx, found_input)
     ctx.assumptions = ['positive semi-definiteness of the covariance (needed for the variance range) is a hypothesis of the theorems; on impl the range is checked directly',
-                       'translation invariance is checked on the implementation only (not proved: it is a property of the covariance/drift oracles)']
+                       'translation invariance: proved for any invertible recombination of the drift basis (C02_basis_change_*) with the explicit translation matrix of the constant+linear basis; stationarity of the covariance oracle and the quadratic basis are checked on the implementation only']
 
 if __name__ == '__main__':
     main(run)
